@@ -53,6 +53,9 @@ pub enum Shape {
     ShrinkKeep,
     /// alloc_probe only: the same through Vec::with_capacity / shrink_to_fit / into_boxed_slice / shrink_to
     VecShrink,
+    /// three buffers of 1, 2 and 1 MiB live together (4 MiB), freed in the given order: every repetition frees more
+    /// than the trim threshold at the top
+    Trio,
 }
 #[derive(Copy, Clone, PartialEq, Eq, Debug)]
 pub enum Order {
@@ -60,7 +63,7 @@ pub enum Order {
     Fifo,
     Random,
 }
-pub const SHAPES: [(&str, Shape); 10] = [
+pub const SHAPES: [(&str, Shape); 11] = [
     ("small", Shape::Small),
     ("large", Shape::Large),
     ("mixed", Shape::Mixed),
@@ -71,6 +74,7 @@ pub const SHAPES: [(&str, Shape); 10] = [
     ("vecalign", Shape::VecAligned),
     ("shrinkkeep", Shape::ShrinkKeep),
     ("vecshrink", Shape::VecShrink),
+    ("trio", Shape::Trio),
 ];
 /// shapes whose held memory is sampled between the allocation and the free half as well
 pub fn samples_mid(shape: Shape) -> bool {
@@ -146,6 +150,11 @@ pub fn plan(shape: Shape, seed: u64, share: usize) -> Vec<Item> {
             }
         }
         Shape::VecAligned | Shape::VecShrink => {}
+        Shape::Trio => {
+            for mib in [1usize, 2, 1] {
+                v.push(Item { size: (mib << 20) / share.min(4) + r.below(512) as usize, align: 8 });
+            }
+        }
         Shape::ShrinkKeep => {
             for i in 0..(600 / share).max(20) {
                 let size = (64 << 10) + r.below((1 << 20) - (64 << 10)) as usize;
@@ -361,6 +370,27 @@ unsafe fn aligned_ladder<H: Heap>(h: &mut H, slots: &mut Vec<Slot>, st: &mut Rep
     for s in slots.iter_mut() {
         re(h, s, 1 + s.size / 5, st, live);
     }
+}
+
+/// End of a repetition in the foreign-mappings family: one block larger than anything the heap can still hold free
+/// (1.5 x the repetition's peak, at least 3 MiB) is allocated and freed. It has to come from a fresh mapping - which
+/// cannot be adjacent to the heap because of the foreign mapping - and its free pushes top over the trim threshold,
+/// so that the heap is trimmed and its unused segments are released in every repetition.
+/// (Once the heap legitimately retains a free chunk of that size away from top, it serves the block and the heap stops
+/// growing: such a run simply stays flat from then on.)
+pub unsafe fn rep_flush<H: Heap>(h: &mut H, st: &mut RepStats) {
+    let size = (st.peak_live + st.peak_live / 2).clamp(3 << 20, 64 << 20);
+    let p = h.alloc(size, 8);
+    st.calls += 2;
+    if p.is_null() {
+        st.failed += 1;
+        return;
+    }
+    p.write_volatile(1);
+    p.add(size - 1).write_volatile(1);
+    st.peak_live = st.peak_live.max(size);
+    st.churned += size;
+    h.free(p, size, 8);
 }
 
 /// Free half: every slot is released in the given order; `slots` is empty afterwards.
@@ -620,5 +650,86 @@ pub unsafe fn steady_rep<H: Heap>(h: &mut H, p: &Steady, seed: u64, slots: &mut 
     while let Some(e) = extra.pop() {
         h.free(e.p, e.size, e.align);
         st.calls += 1;
+    }
+}
+
+// ---------------------------------------------------------------------------------------------
+// foreign mappings between heap growths: something else in the process maps memory (PROT_NONE, never touched)
+// right where the allocator's next mapping would have been adjacent to its heap, so the heap becomes a list of
+// NON-ADJACENT segments (add_segment, demoted segments, release_unused_segments). The bytes currently mapped this
+// way are tracked exactly so that they can be taken out of VmSize.
+pub trait Os {
+    /// anonymous PROT_NONE mapping; 0 on failure
+    unsafe fn map(&mut self, len: usize) -> usize;
+    unsafe fn unmap(&mut self, addr: usize, len: usize);
+}
+
+pub const FOREIGN_POLICIES: [&str; 5] = ["none", "keep", "ring", "transient", "keep16"];
+
+pub struct Foreign {
+    /// 0 none; 1 keep every mapping; 2 keep the last 6, unmap older ones (holes the heap may grow into later);
+    /// 3 unmap right after the repetition; 4 keep every mapping, each 16 MiB (larger than any growth of the heap, so the
+    /// heap's next mapping can never be adjacent to an older one); 1-3 draw sizes from 4 KiB .. 16 MiB
+    pub policy: u8,
+    ring: [(usize, usize); 6],
+    next: usize,
+    /// bytes currently mapped by us
+    pub bytes: usize,
+    pub mapped: usize,
+    pub unmapped: usize,
+}
+impl Foreign {
+    pub fn new(policy: u8) -> Self {
+        Foreign { policy, ring: [(0, 0); 6], next: 0, bytes: 0, mapped: 0, unmapped: 0 }
+    }
+    pub fn by_name(s: &str) -> Option<Self> {
+        FOREIGN_POLICIES.iter().position(|p| *p == s).map(|i| Self::new(i as u8))
+    }
+    fn size(r: &mut Prng) -> usize {
+        match r.below(8) {
+            0 => 4096,
+            1 => 12288,
+            2 => 65536,
+            3 => 1 << 20,
+            4 => 2 << 20,
+            5 => (3 << 20) + 4096,
+            _ => 16 << 20,
+        }
+    }
+    /// called before a repetition (or periodically inside a steady phase)
+    pub unsafe fn before<O: Os>(&mut self, os: &mut O, r: &mut Prng) {
+        if self.policy == 0 {
+            return;
+        }
+        let len = if self.policy == 4 { 16 << 20 } else { Self::size(r) };
+        let addr = os.map(len);
+        if addr == 0 {
+            return;
+        }
+        self.bytes += len;
+        self.mapped += 1;
+        if self.policy != 1 && self.policy != 4 {
+            let old = self.ring[self.next];
+            if old.1 != 0 {
+                os.unmap(old.0, old.1);
+                self.bytes -= old.1;
+                self.unmapped += 1;
+            }
+            self.ring[self.next] = (addr, len);
+            self.next = (self.next + 1) % self.ring.len();
+        }
+    }
+    /// called after a repetition
+    pub unsafe fn after<O: Os>(&mut self, os: &mut O) {
+        if self.policy == 3 {
+            for e in self.ring.iter_mut() {
+                if e.1 != 0 {
+                    os.unmap(e.0, e.1);
+                    self.bytes -= e.1;
+                    self.unmapped += 1;
+                    *e = (0, 0);
+                }
+            }
+        }
     }
 }
